@@ -101,6 +101,10 @@ def step_terms(case, with_reload=True, with_cut=True, expect_fail=False):
             else:
                 reason = "deliver %s error %s" % (st.get("extra", {}).get("kind"), res)
                 break
+        elif k == "side":
+            # a side writer of another subsystem on a stale OpenChannel instance: must be
+            # invisible to the channel state machine (model state unchanged)
+            t = "TSkip"
         elif k == "crash":
             ex = st.get("extra", {})
             if not with_reload or ex.get("err") or "reloaded" not in ex:
